@@ -11,6 +11,7 @@
 -/
 import EG.Lemmas.StyledRectTranslate
 namespace EG.C07.Rectangle
+open EG.Tgt
 open EG EG.Rect EG.StyledRect
 
 /-! ### Part 1: `Rectangle` -/
